@@ -24,7 +24,7 @@ class PROP(Prop):
             "runtime (2..8 workers); every connection pipelines 1..12 requests tagged (connection, sequence) with random pacing (0..300 us); the "
             "service answers by a fixed rule (echo / computed registers / no reply / exception).  Oracle: the bytes each client received are exactly "
             "the spec replies to its own requests in its own order; the service factory was invoked once per connection with that connection's "
-            "peer address.  Each connection's byte stream is also run through the model (SRV) and compared.  non-trivial = run with >= 2 connections")
+            "peer address (runs over the IPv4 and the IPv6 loopback; accept_tcp_connection also probed directly with IPv4, IPv6, mapped, compatible, scoped addresses).  Each connection's byte stream is also run through the model (SRV) and compared.  non-trivial = run with >= 2 connections")
 
     def cases(self, rng, tier):
         cs = []
@@ -59,9 +59,30 @@ class PROP(Prop):
                         reqs.append((tid if proto == "tcp" else 0, uid, req))
                     conns.append(",".join(plan))
                     metas.append(reqs)
-                line = "CONC %s %d %s" % (proto, rng.choice([2, 4, 8]), "|".join(conns))
+                flav = proto + ("6" if rng.random() < 0.4 else "")      # some runs over the IPv6 loopback
+                line = "CONC %s %d %s" % (flav, rng.choice([2, 4, 8]), "|".join(conns))
                 cs.append(Case(line, {"k": "conc", "proto": proto, "conns": [[(t, u, mb.show_req(r)) for t, u, r in m] for m in metas], "n": nconn, "idle": sorted(idle)}))
-        return cs
+        # the peer address handed to the service factory by accept_tcp_connection: IPv4, IPv6 loopback / unspecified, IPv4-mapped and
+        # IPv4-compatible IPv6, link-local with scope, ordinary global addresses; boundary ports
+        addrs = ["127.0.0.1", "0.0.0.0", "255.255.255.255", "10.1.2.3", "[::1]", "[::]", "[::ffff:1.2.3.4]", "[::1.2.3.4]", "[::0.0.0.2]",
+                 "[fe80::1%3]", "[2001:db8::7]", "[ffff:ffff:ffff:ffff:ffff:ffff:ffff:ffff]", "[::ffff:0:1]", "[64:ff9b::102:304]"]
+        for _ in range(10 if tier == "quick" else 200):
+            addrs.append("[%s]" % ":".join("%x" % rng.choice([0, 0, 1, 0xffff, rng.randrange(65536)]) for _ in range(8)))
+            addrs.append(".".join(str(rng.randrange(256)) for _ in range(4)))
+        for a in addrs:
+            for port in (0, 1, 502, 65535, rng.randrange(65536)):
+                for proto in ("tcp", "rtu"):
+                    cs.append(Case("ACCADDR %s %s:%d" % (proto, a, port), {"k": "accaddr", "proto": proto}))
+        # spread the slow concurrent runs evenly over the shards
+        conc = [c for c in cs if c.meta["k"] == "conc"]
+        rest = [c for c in cs if c.meta["k"] != "conc"]
+        step = max(1, len(rest) // max(1, len(conc)))
+        out = []
+        for i, c in enumerate(conc):
+            out.append(c)
+            out += rest[i * step:(i + 1) * step]
+        out += rest[len(conc) * step:]
+        return out
 
     def followup(self, cases, rng, tier):
         # every connection's stream through the model of one connection
@@ -94,6 +115,8 @@ class PROP(Prop):
             return None
         if "PANIC" in r or "CRASH" in r or "NORESULT" in r or r.startswith("ERR"):
             return "failure: %s" % r[:80]
+        if c.meta["k"] == "accaddr":
+            return None if r.endswith(" n=1 same=1") else "accept_tcp_connection did not create the service with the peer's address exactly once: %s" % r[:80]
         if c.meta["k"] == "srv":
             if c.meta.get("on_model"):
                 ws = "".join(t[2:] for t in r.split(",") if t.startswith("W:")) or "-"
